@@ -57,6 +57,10 @@ def scenario_of(case):
         scn["flow"]["alpha"] = 0.0
         scn["flow"]["inflate"] = float(rng.uniform(4.0, 12.0))
         scn["bounded_to_unbounded"] = False
+    if rng_from(case["fault_seed"] + 11).integers(5) == 0:
+        # the user's callables are swapped for pool-mapped versions by Aspire.enable_pool (likelihood only, or the prior too)
+        scn["_pool"] = "prior_too" if rng_from(case["fault_seed"] + 12).integers(2) else "likelihood"
+    if scn["flow"].get("kind") == "native" and scn["flow"].get("inflate", 0) >= 4.0:
         if scn["dtype"] == "float32" and scn["sampler"] == "smc" and rng.integers(4) != 0:
             # a float32 run whose prior hands back float64 numpy values and marks the excluded region with a finite sentinel
             # (-1e300, a common "log of zero" stand-in) instead of -inf: in the run's own precision that IS minus infinity, so
@@ -75,7 +79,13 @@ def _initial_population_checks(scn, workdir, where):
     def before(A, res):
         A.flow.listeners.append(lambda kind, x, lq: drawn.append((x.copy(), lq.copy())) if kind == "sample" else None)
 
-    r = run_process(scn, workdir, before_sample=before, fresh_file=True, proc_no=0)
+    pool = None
+    if scn.get("_pool"):
+        from ..env import FakePool
+
+        pool = FakePool()
+        pool.parallelize_prior = scn["_pool"] == "prior_too"
+    r = run_process(scn, workdir, before_sample=before, fresh_file=True, proc_no=0, pool=pool)
     if r.status != "ok":
         return V, info, r
     sampler = scn["sampler"]
